@@ -1,6 +1,7 @@
 package checks
 
 import (
+	"sync/atomic"
 	"fmt"
 	"sort"
 	"strings"
@@ -22,6 +23,8 @@ type atEnv struct {
 	name   string
 	cfg    atUndoCfg
 	logPos int
+	// deliveries that showed no sign of an end for the whole watchdog time
+	backstops int32
 }
 
 type atUndoCfg struct {
@@ -253,7 +256,18 @@ func (e *atEnv) awaitPhaseTwo(ch chan *wire.Msg, reqSeq int64) *wire.Msg {
 // awaitPhaseTwoFrom: logOff is the size of the client's log before the request was sent; the processors log
 // "branch rollback error" / "branch commit error" when the resource manager failed (such a request gets no answer).
 func (e *atEnv) awaitPhaseTwoFrom(ch chan *wire.Msg, reqSeq int64, logOff int64) *wire.Msg {
-	deadline := time.Now().Add(20 * time.Second)
+	// watchdog: 20 s; once three deliveries of this environment stayed without any sign of an end for the full 20 s
+	// (a hanging resource manager), later ones are given 3 s - the verdicts are the same, the run stays bounded
+	wait := 20 * time.Second
+	if atomic.LoadInt32(&e.backstops) >= 3 {
+		wait = 3 * time.Second
+	}
+	deadline := time.Now().Add(wait)
+	defer func() {
+		if !time.Now().Before(deadline) {
+			atomic.AddInt32(&e.backstops, 1)
+		}
+	}()
 	var endedAt time.Time
 	grace := 400 * time.Millisecond
 	for time.Now().Before(deadline) {
